@@ -340,6 +340,16 @@ def string_cases(tier):
 MALFORMED_ALPHA = ["1", "2", "+", "*", "(", ")", "pi", "-", "not", ",", "fmod"]
 
 
+E_SPELLINGS = [
+    ("1" + "0" * 23, ["1e23", "1 e 23", "(1)e(23)", "1E23", "1 e23", "1e 23", "( 1 e 23 )"]),
+    ("7" + "0" * 30, ["7e30", "7 e 30", "(7)e30"]),
+    ("123" + "0" * 40, ["123e40", "123 e 40"]),
+    ("200", ["2 e 1e1", "2e1e1", "(2 e 1) e 1", "2e1 e 1", "2 e 1 e 1"]),
+    ("1" + "0" * 23 + "1"[:0], ["10e22", "10 e 22", "100 e 21"]),
+    ("3" + "0" * 25, ["3e25", "3 e 25", "3e5e20", "(3 e 5) e 20"]),
+]
+
+
 def wellformed_expr(toks):
     """Recognises  E := U (B U)* ;  U := unary* atom ;  atom := number | pi | ( E )  over MALFORMED_ALPHA."""
     pos = [0]
@@ -459,6 +469,26 @@ def work(payload, skip, report):
                 acc.distinct("values", want)
             if i % 50021 == 0:
                 acc.sample({"expr": rmin(e), "value": want})
+        close_ctx(ctx)
+    elif kind == "spellings":
+        # the binary operator "e" with operands and exponents beyond what a float holds exactly, in every spacing / bracketing:
+        # one value per group (exact integer arithmetic), whatever the spelling
+        ctx = new_ctx()
+        i = 0
+        for want, texts in E_SPELLINGS:
+            for txt in texts:
+                report(i)
+                i += 1
+                ctx.start_page("Tt")
+                try:
+                    got = ctx.expand("{{#expr:" + txt + "}}")
+                except Exception as ex:
+                    got = "EXC " + type(ex).__name__
+                acc.case()
+                acc.distinct("values", want)
+                if got != want:
+                    acc.violation("expr_value:spelling", {"input": "{{#expr:" + txt + "}}", "reference": want, "oracle": "expr_value:spelling"}, got, want)
+        acc.sample({"expr": E_SPELLINGS[0][1][0], "value": E_SPELLINGS[0][0]})
         close_ctx(ctx)
     elif kind == "malformed":
         _, k, n = payload
@@ -584,6 +614,7 @@ def main(run):
         chunks.append(("str", run.tier, k, n))
     for k in range(16):
         chunks.append(("malformed", k, 16))
+    chunks.append(("spellings",))
     locs = locales()
     for k in range(16):
         if locs[k::16]:
